@@ -3,6 +3,7 @@ package main
 import (
 	"fmt"
 	"os"
+	"path/filepath"
 	"strings"
 
 	"verifharness/internal/hx"
@@ -351,6 +352,10 @@ func shrinkGc(c *hx.Ctx, p *prog, b proto.Break) proto.Break {
 // replay re-runs the case of a replay file written by ./check.
 func replay(c *hx.Ctx) error {
 	data, err := os.ReadFile(c.Replay)
+	if err != nil && !filepath.IsAbs(c.Replay) {
+		// ./check runs the harness in go/; replay paths are relative to the verification root
+		data, err = os.ReadFile(filepath.Join("..", c.Replay))
+	}
 	if err != nil {
 		return err
 	}
